@@ -41,6 +41,11 @@ type writeCase struct {
 	Align    bool
 	FailCall int
 	Deep     bool
+	// a Writer that has been used before under other options (0 = fresh): bit mask of the options that
+	// differed in the earlier call; PriorWhole: the options are then assigned as a whole, else field by field
+	Prior      int
+	PriorWhole bool
+	PriorWrite bool // the earlier call was Write to an io.Writer (else JSON)
 }
 
 func (c *writeCase) render() any {
@@ -48,6 +53,7 @@ func (c *writeCase) render() any {
 		"value": fmt.Sprintf("%#v", c.Value), "gen": c.UseGen,
 		"options":     fmt.Sprintf("Indent=%d Tab=%v Sort=%v OmitNil=%v OmitEmpty=%v HTMLUnsafe=%v InitSize=%d", c.Opt.Indent, c.Opt.Tab, c.Opt.Sort, c.Opt.OmitNil, c.Opt.OmitEmpty, c.Opt.HTMLUnsafe, c.Opt.InitSize),
 		"write_limit": c.Limit, "pretty": fmt.Sprintf("width=%d maxDepth=%d align=%v", c.Width, c.MaxDepth, c.Align), "fail_write_call": c.FailCall,
+		"used_writer": fmt.Sprintf("earlier call differed in options mask %#x (1 Sort, 2 Indent, 4 Tab, 8 OmitNil, 16 OmitEmpty, 32 HTMLUnsafe), whole=%v write=%v", c.Prior, c.PriorWhole, c.PriorWrite),
 	}
 }
 
@@ -87,6 +93,11 @@ func drawWriteCase(t *rapid.T) *writeCase {
 	c.Align = sim.Bool(t, "align")
 	if sim.Intn(t, 4, "fault") == 3 {
 		c.FailCall = sim.Intn(t, 6, "failcall")
+	}
+	if sim.Intn(t, 3, "usedwriter") == 2 {
+		c.Prior = 1 + sim.Intn(t, 63, "priormask")
+		c.PriorWhole = sim.Bool(t, "priorwhole")
+		c.PriorWrite = sim.Bool(t, "priorwrite")
 	}
 	return c
 }
@@ -521,6 +532,72 @@ func propC04(cx *sim.Ctx) {
 					cx.Fail("C04/fault/oj.Writer.Write/error-swallowed", fmt.Sprintf("write call %d failed but Write returned nil", c.FailCall), attrs)
 				}
 			}
+		}
+	}
+
+	// ---- a Writer that was used before under other options writes what a fresh one writes
+	if c.Prior != 0 {
+		po := c.Opt
+		po.WriteLimit = c.Limit
+		if c.Prior&1 != 0 {
+			po.Sort = !po.Sort
+		}
+		if c.Prior&2 != 0 {
+			if po.Indent > 0 {
+				po.Indent = 0
+			} else {
+				po.Indent = 3
+			}
+		}
+		if c.Prior&4 != 0 {
+			po.Tab = !po.Tab
+		}
+		if c.Prior&8 != 0 {
+			po.OmitNil = !po.OmitNil
+		}
+		if c.Prior&16 != 0 {
+			po.OmitEmpty = !po.OmitEmpty
+		}
+		if c.Prior&32 != 0 {
+			po.HTMLUnsafe = !po.HTMLUnsafe
+		}
+		wr := &oj.Writer{Options: po}
+		earlier := map[string]any{"b": []any{nil, "<x>", map[string]any{}}, "a": int64(1), "c": map[string]any{"z": nil, "y": ""}}
+		var pd any = earlier
+		if c.UseGen {
+			pd = gens.ToGen(earlier)
+		}
+		if c.PriorWrite {
+			_, _ = guardStr(func() string { _ = wr.Write(sim.NewSimWriter(-1), pd); return "" })
+		} else {
+			_, _ = guardStr(func() string { return wr.JSON(pd) })
+		}
+		cx.Exec()
+		now := c.Opt
+		now.WriteLimit = c.Limit
+		if c.PriorWhole {
+			wr.Options = now
+		} else {
+			wr.Sort, wr.Indent, wr.Tab, wr.OmitNil, wr.OmitEmpty, wr.HTMLUnsafe = now.Sort, now.Indent, now.Tab, now.OmitNil, now.OmitEmpty, now.HTMLUnsafe
+		}
+		ws, p := guardStr(func() string { return wr.JSON(data) })
+		cx.Exec()
+		switch {
+		case p != nil:
+			cx.Fail("C04/panic/oj.Writer.JSON(used writer)", fmt.Sprint(p), attrs)
+		case deterministic && ws != mem:
+			cx.Fail("C04/used-writer/oj.Writer.JSON", fmt.Sprintf("a Writer used before under other options writes %s ; a fresh one %s", clip(ws), clip(mem)), attrs)
+		default:
+			judgeText("oj.Writer.JSON(used writer)", []byte(ws), c.Opt.Sort)
+		}
+		sw := sim.NewSimWriter(-1)
+		var err error
+		_, p = guardStr(func() string { err = wr.Write(sw, data); return "" })
+		cx.Exec()
+		if p != nil || err != nil {
+			cx.Fail("C04/error/oj.Writer.Write(used writer)", fmt.Sprint(p, err), attrs)
+		} else {
+			sameText("oj.Writer.Write(used writer)", mem, sw)
 		}
 	}
 
